@@ -241,39 +241,60 @@ def roundDiv (a b : Nat) : Nat :=
     let r := a % b
     if 2 * r > b then q + 1 else if 2 * r < b then q else if q % 2 = 0 then q else q + 1
 
-/-- `_space_between`: the separator and the rule that chose it -/
-def spaceBetween (cfg : Cfg) (st : St) (prev cur : Tok) : Piece :=
-  let ps := prev.text
-  let cs := cur.text
-  if cur.kind = .fmiddle || cur.kind = .fend then sepP .fstr []
-  else if prev.kind = .fstart || prev.kind = .fmiddle then sepP .fstr []
-  else if isBang cur && startsAtEndOf cur prev then sepP .bang []
-  else if st.macroUntilDepth > 0 || st.macroAliasLine then
+/-- the rules of `_space_between` that look only at the two tokens' kinds and texts and at the lexical
+context (bracket stack, lambda depth, subprocess-line flag) — never at positions -/
+def forced (cfg : Cfg) (st : St) (pk : Kind) (ps : Str) (ck : Kind) (cs : Str) : Option Piece :=
+  if ck = .comment then some (sepP .comment [' ', ' '])
+  else if cfg.tb.openers.contains ps then some (sepP .opener [])
+  else if cfg.tb.closers.contains cs then some (sepP .closer [])
+  else if cs = [','] || cs = [';'] then some (sepP .commaB [])
+  else if ps = [','] || ps = [';'] then some (sepP .commaA [' '])
+  else if cs = [':'] then some (sepP .colonB [])
+  else if ps = [':'] then
+    if st.brackets.head? = some ['['] then some (sepP .colonSlice []) else some (sepP .colonA [' '])
+  else if (ps = ['='] || cs = ['=']) && st.brackets.length = 0 && st.lambdaDepth = 0 && !st.subprocLine then
+    some (sepP .eq [' '])
+  else if cfg.tb.alwaysSpaced.contains ps || cfg.tb.alwaysSpaced.contains cs then some (sepP .always [' '])
+  else if pk = .name && cfg.tb.pyKeywords.contains ps then some (sepP .kw [' '])
+  else none
+
+/-- the default of `_space_between`: keep the source's gap, as one blank or none -/
+def gapOf (prev cur : Tok) : Piece :=
+  if prev.el ≠ cur.sl then sepP .gapLines [' ']
+  else if cur.sc > prev.ec then sepP .gapSome [' '] else sepP .gapNone []
+
+/-- after a backslash-newline in a Python statement: the visual offset past the statement's indentation,
+rescaled from the source's indent width to the formatter's -/
+def contPyIndent (cfg : Cfg) (st : St) (cur : Tok) : Str :=
+  let w := srcWidth cfg st
+  let srcBase : Int := st.indentLevel * w
+  let visual : Nat := ((cur.sc : Int) - srcBase).toNat
+  let newBase : Int := st.indentLevel * cfg.indent.length
+  let off : Nat := roundDiv (visual * cfg.indent.length) w
+  spaces (newBase + off)
+
+/-- `_space_between` past its first three tests: macro bodies verbatim, continuation indents, the forced
+rules, the source's gap -/
+def spaceLate (cfg : Cfg) (st : St) (prev cur : Tok) : Piece :=
+  match forced cfg st prev.kind prev.text cur.kind cur.text with
+  | some p => p
+  | none => gapOf prev cur
+
+def spaceRest (cfg : Cfg) (st : St) (prev cur : Tok) : Piece :=
+  if st.macroUntilDepth > 0 || st.macroAliasLine then
     if isContTok prev then sepP .rawCont (repeatStr cfg.indent (st.indentLevel + 1))
     else srcP .raw (rawSlice cfg.src prev cur)
   else if isContTok prev then
     if st.subprocLine then sepP .contSub (repeatStr cfg.indent (st.indentLevel + 1))
-    else
-      let w := srcWidth cfg st
-      let srcBase : Int := st.indentLevel * w
-      let visual : Nat := ((cur.sc : Int) - srcBase).toNat
-      let newBase : Int := st.indentLevel * cfg.indent.length
-      let off : Nat := roundDiv (visual * cfg.indent.length) w
-      sepP .contPy (spaces (newBase + off))
-  else if cur.kind = .comment then sepP .comment [' ', ' ']
-  else if cfg.tb.openers.contains ps then sepP .opener []
-  else if cfg.tb.closers.contains cs then sepP .closer []
-  else if cs = [','] || cs = [';'] then sepP .commaB []
-  else if ps = [','] || ps = [';'] then sepP .commaA [' ']
-  else if cs = [':'] then sepP .colonB []
-  else if ps = [':'] then
-    if st.brackets.head? = some ['['] then sepP .colonSlice [] else sepP .colonA [' ']
-  else if (ps = ['='] || cs = ['=']) && st.brackets.length = 0 && st.lambdaDepth = 0 && !st.subprocLine then
-    sepP .eq [' ']
-  else if cfg.tb.alwaysSpaced.contains ps || cfg.tb.alwaysSpaced.contains cs then sepP .always [' ']
-  else if prev.kind = .name && cfg.tb.pyKeywords.contains ps then sepP .kw [' ']
-  else if prev.el ≠ cur.sl then sepP .gapLines [' ']
-  else if cur.sc > prev.ec then sepP .gapSome [' '] else sepP .gapNone []
+    else sepP .contPy (contPyIndent cfg st cur)
+  else spaceLate cfg st prev cur
+
+/-- `_space_between`: the separator and the rule that chose it -/
+def spaceBetween (cfg : Cfg) (st : St) (prev cur : Tok) : Piece :=
+  if cur.kind = .fmiddle || cur.kind = .fend then sepP .fstr []
+  else if prev.kind = .fstart || prev.kind = .fmiddle then sepP .fstr []
+  else if isBang cur && startsAtEndOf cur prev then sepP .bang []
+  else spaceRest cfg st prev cur
 
 /-- does `_space_between` call `_source_indent_width()` (which stores the width)? -/
 def spaceTouchesWidth (st : St) (prev cur : Tok) : Bool :=
@@ -504,6 +525,7 @@ whatever is flagged gets a separator, see Props/C17)
    tables (`<` `<=`, `*` `*=`, `$` `(`, `2` `>`, `.` `.`, …);
  * a digit followed by `.` or `.` followed by a digit (number literals);
  * a closing quote followed by the same quote (`''` `'x'` reads as a triple-quote opener);
+ * `{` `{` and `}` `}` (inside an f-string field two braces in a row are an escaped brace);
  * anything followed by `#` (a comment would start). -/
 def merges (ops : List Str) (a b : Str) : Bool :=
   match a.getLast?, b.head? with
@@ -513,6 +535,7 @@ def merges (ops : List Str) (a b : Str) : Bool :=
     ops.any (extendsWith a y) ||
     (x.isDigit && y = '.') || (x = '.' && y.isDigit) ||
     ((x = '\'' || x = '"') && x = y) ||
+    ((x = '{' || x = '}') && x = y) ||
     y = '#'
   | _, _ => false
 
